@@ -36,6 +36,16 @@ def gen(rng, d, reals):
                                "(/ %d.5 3)" % a, "(exp %d)" % rng.randrange(-80, 80), "(* 1.7014117e38 %d)" % rng.choice([2, -2]),
                                "(* 5.877472e-39 %d)" % rng.choice([2, -2, 1])])
         return c
+    if r < 0.42:
+        # data that LOOK like abbreviable forms: the symbol quote (quasiquote, unquote) at the head of a list of any shape -
+        # two elements, more, fewer, with an improper tail
+        head = rng.choice(["'quote", "'quote", "'quasiquote", "'unquote"])
+        shape = rng.randrange(5)
+        if shape == 0: return "(list %s %s)" % (head, gen(rng, d - 1, reals))
+        if shape == 1: return "(cons %s (cons %s %s))" % (head, gen(rng, d - 1, reals), rng.choice(INTS + SYMS))
+        if shape == 2: return "(list %s %s %s)" % (head, gen(rng, d - 1, reals), gen(rng, d - 1, reals))
+        if shape == 3: return "(cons %s %s)" % (head, rng.choice(INTS + SYMS))
+        return "(list %s)" % head
     if r < 0.6:
         return "(list %s)" % " ".join(gen(rng, d - 1, reals) for _ in range(rng.randrange(0, 5)))
     if r < 0.75:
